@@ -18,6 +18,7 @@ import (
 	"os"
 	"path/filepath"
 	"reflect"
+	"runtime"
 	"sort"
 	"strings"
 	"sync"
@@ -61,8 +62,9 @@ type box struct {
 	injecting bool
 	curHeight int64
 
-	prevDump map[string][]byte
-	stuck    string
+	concurrent bool
+	prevDump   map[string][]byte
+	stuck      string
 
 	out     *json.Encoder
 	panicFl int32
@@ -528,7 +530,38 @@ func (b *box) doBlock(rc *proto.Recipe) proto.Resp {
 	b.mu.Unlock()
 	b.crashIf("after:SaveBlock")
 
+	var cwg sync.WaitGroup
+	stopC := make(chan struct{})
+	if len(rc.Concurrent) > 0 {
+		b.mu.Lock()
+		b.concurrent = true
+		b.mu.Unlock()
+		cwg.Add(1)
+		go func() {
+			defer cwg.Done()
+			mp := b.node.ProxyApp().Mempool()
+			for i, tx := range rc.Concurrent {
+				select {
+				case <-stopC:
+					// the block is done: the rest still goes through, after Commit
+				default:
+				}
+				mp.CheckTxAsync(abci.RequestCheckTx{Tx: tx})
+				if i%2 == 0 {
+					runtime.Gosched()
+				} else {
+					time.Sleep(time.Duration(20+i%7*15) * time.Microsecond)
+				}
+			}
+			_ = mp.FlushSync()
+		}()
+	}
 	newState, aerr := b.blockExec.ApplyBlock(state, blockID, block)
+	close(stopC)
+	cwg.Wait()
+	b.mu.Lock()
+	b.concurrent = false
+	b.mu.Unlock()
 	b.mu.Lock()
 	b.recipe = nil
 	b.mu.Unlock()
@@ -652,7 +685,7 @@ func events(evs []abci.Event) []proto.Event {
 func (b *box) after(method string, req, resp interface{}) {
 	c := proto.Call{M: method}
 	b.mu.Lock()
-	c.Injected = b.injecting
+	c.Injected = b.injecting || (b.concurrent && method == "CheckTx")
 	c.Height = b.curHeight
 	b.mu.Unlock()
 	switch r := resp.(type) {
